@@ -95,6 +95,10 @@ def build_lib(variant, cdefs=(), tag="", c_include=None, skip_c=()):
         objs.append(o)
         inc = ["-include", c_include] if (c_include and src.endswith("cholesky_solve.c")) else []
         jobs.append(["gcc"] + CBASE + VARIANTS[variant] + list(cdefs) + inc + ["-c", os.path.join(REPO, src), "-o", o])
+    try:
+        os.utime(d, None)      # mark as in use (see _gc_builds)
+    except OSError:
+        pass
     if os.path.exists(stamp):
         return objs, d
     procs = [(j, subprocess.Popen(j, stdout=subprocess.PIPE, stderr=subprocess.STDOUT, text=True)) for j in jobs]
@@ -108,11 +112,13 @@ def build_lib(variant, cdefs=(), tag="", c_include=None, skip_c=()):
 
 
 def _gc_builds(keep):
-    """keep disk use bounded: drop build dirs older than the 6 newest"""
+    """keep disk use bounded: drop build dirs beyond the 6 newest that have not been used for two hours"""
     try:
         ds = sorted((os.path.getmtime(p), p) for p in glob.glob(os.path.join(BUILD, "*")) if os.path.isdir(p))
-        for _, p in ds[:-6]:
-            if keep not in p:
+        now = time.time()
+        for mt, p in ds[:-6]:
+            # never remove a directory that was used in the last two hours: another check may be running from it
+            if keep not in p and now - mt > 7200:
                 shutil.rmtree(p, ignore_errors=True)
     except OSError:
         pass
